@@ -1,4 +1,5 @@
 import RJson.Props.C03Complete
+import RJson.Props.C04All
 /-!
 # C08 — decoders assembled from the public API: `ReadFloat64` handlers and one complete decoder
 
@@ -8,6 +9,10 @@ import RJson.Props.C03Complete
 * `decoder_levels_WB`: the member handlers of the generic decoder `ValueReader` — which is nothing but a decoder
   assembled from `HandleArrayValues` / `HandleObjectValues`, `NextTokenType` and the scalar readers — are
   well-behaved at every nesting level;
+* `floatArray_decoder`: a second complete decoder — `HandleArrayValues` with the `ReadFloat64` handler — specified end to
+  end: on every input whose array members are found by the reference traversal it returns, in order, the correctly
+  rounded value of every member (C07 for the traversal, `C04.readFloat64_correct_all` for each member), and it fails
+  exactly when some member is not a number in range;
 * `assembled_decoder_agrees`: that assembled decoder and the tree specification agree in both directions on every
   input (the statement of C03, restated here as the instance of C08's "a decoder reading every member reconstructs the
   value": success ⇒ the tree of the text; a tree within 10 000 levels ⇒ success with that tree).
@@ -15,10 +20,8 @@ import RJson.Props.C03Complete
 namespace RJson.C08
 open RJson.Ragel RJson.Spec RJson.Abs RJson.Model RJson.VR RJson.Tree
 
-/-- collect every member that is a number with `ReadFloat64` (an error for anything else) -/
-def floatH : Handler (List Nat) := fun acc _ suffix =>
-  let r := Model.readFloat64 suffix
-  if r.err.isNone && !r.panicked then (acc ++ [r.val], r.p, none) else (acc, 0, some 1)
+/- `Model.floatH` (Model/ValueReader.lean): collect every member that is a number with `ReadFloat64`, an error for
+   anything else. -/
 
 theorem floatH_WB : WB floatH := by
   apply WB_of_valueEnd
@@ -45,5 +48,138 @@ theorem assembled_decoder_agrees (data : Bytes) (hsm : Small data) :
       (Model.readValue data).err = none ∧ (Model.readValue data).panicked = false ∧ (Model.readValue data).val = v) :=
   ⟨fun he hpk => C03.readValue_tree data hsm he hpk _ (le_refl _),
    fun f v hf ht => C03.readValue_complete data hsm f hf v ht⟩
+
+/-! ## a complete decoder for arrays of numbers -/
+
+/-- `ReadFloat64` succeeds only in front of a number literal -/
+theorem readFloat64_ok_scan (data : Bytes) (he : (Model.readFloat64 data).err = none) :
+    ∃ rest, scanNumber (skipWs data.toList) = some rest := by
+  have hcw := countWhitespace_spec data
+  have hsub : (data.extract (countWhitespace data) data.size).toList = skipWs data.toList := by
+    rw [extract_toList, List.take_of_length_le (by simp), hcw]
+    have := C13Aux.drop_skipWs data.toList
+    simpa using this
+  simp only [Model.readFloat64] at he
+  by_cases hend : (countWhitespace data == data.size) = true
+  · simp [hend] at he
+  · simp only [hend, Bool.false_eq_true, if_false] at he
+    have hperr : (FP.parse (data.extract (countWhitespace data) data.size)).err = false := by
+      cases hh : (FP.parse (data.extract (countWhitespace data) data.size)).err with
+      | false => rfl
+      | true => simp [hh] at he
+    obtain ⟨rest, hr, _⟩ := FloatSyntax.parse_ok_syntax _ hperr
+    rw [hsub] at hr
+    exact ⟨rest, hr⟩
+
+/-- one member: `ReadFloat64` against the specification of the conversion -/
+theorem readFloat64_member (v : List UInt8) :
+    match Spec.readFloat v with
+    | some (x, _) => (Model.readFloat64 v.toArray).err = none ∧ (Model.readFloat64 v.toArray).panicked = false ∧ (Model.readFloat64 v.toArray).val = x
+    | none => ((Model.readFloat64 v.toArray).err.isNone && !(Model.readFloat64 v.toArray).panicked) = false := by
+  have hpk := (C10.readFloat64_total v.toArray).1
+  cases hs : scanNumber (skipWs v) with
+  | some rest =>
+    have key := (C04.readFloat64_correct_all v.toArray rest (by simpa using hs)).2
+    simp only [List.toList_toArray] at key
+    revert key
+    cases Spec.readFloat v with
+    | some xn =>
+      obtain ⟨x, n⟩ := xn
+      intro key
+      exact ⟨key.1, hpk, key.2.1⟩
+    | none =>
+      intro key
+      simp only [] at key ⊢
+      simp [key]
+  | none =>
+    have hnone : Spec.readFloat v = none := by simp only [Spec.readFloat, hs]
+    rw [hnone]
+    simp only []
+    cases he : (Model.readFloat64 v.toArray).err with
+    | some e => simp
+    | none =>
+      obtain ⟨rest, hr⟩ := readFloat64_ok_scan v.toArray he
+      simp only [List.toList_toArray] at hr
+      rw [hs] at hr; cases hr
+
+/-- what the decoder is specified to return: the correctly rounded value of every member, or nothing when some member is
+    not a number in range -/
+def specFloats (data : List UInt8) : List Member → Option (List Nat)
+  | [] => some []
+  | m :: ms =>
+    match Spec.readFloat (data.drop m.off) with
+    | none => none
+    | some (x, _) => (specFloats data ms).map (x :: ·)
+
+theorem replay_floatH (data : List UInt8) : ∀ (ms : List Member) (acc : List Nat) (n : Nat),
+    match specFloats data ms with
+    | some xs => replay floatH data ms acc n = (acc ++ xs, n + ms.length, none)
+    | none => ∃ id, (replay floatH data ms acc n).2.2 = some id := by
+  intro ms
+  induction ms with
+  | nil => intro acc n; simp [specFloats, replay]
+  | cons m ms ih =>
+    intro acc n
+    have hm := readFloat64_member (data.drop m.off)
+    simp only [specFloats, replay]
+    cases hr : Spec.readFloat (data.drop m.off) with
+    | none =>
+      rw [hr] at hm
+      simp only [] at hm ⊢
+      simp only [floatH, hm, Bool.false_eq_true, if_false]
+      exact ⟨1, rfl⟩
+    | some xn =>
+      obtain ⟨x, k⟩ := xn
+      rw [hr] at hm
+      simp only [] at hm ⊢
+      obtain ⟨h1, h2, h3⟩ := hm
+      have hc : ((Model.readFloat64 (data.drop m.off).toArray).err.isNone && !(Model.readFloat64 (data.drop m.off).toArray).panicked) = true := by
+        simp [h1, h2]
+      simp only [floatH, hc, if_true, h3]
+      have := ih (acc ++ [x]) (n + 1)
+      revert this
+      cases specFloats data ms with
+      | none => intro this; simpa using this
+      | some xs =>
+        intro this
+        simp only [Option.map_some] at this ⊢
+        rw [this]
+        simp only [List.append_assoc, List.singleton_append, List.length_cons]
+        congr 2
+        omega
+
+/-- **`HandleArrayValues` with the `ReadFloat64` handler is a correct decoder for arrays of numbers**: for every input
+    whose members the reference traversal finds, the regenerated machine on the Go slice stack returns — in order — the
+    correctly rounded binary64 of every member and stops behind the array; it ends with the handler's error exactly when
+    some member is not a number in range -/
+theorem floatArray_decoder (data : Bytes) (hsm : Small data) (hv : Havoc Nat) (stack : Array Nat) (ms : List Member) (n : Nat)
+    (ht : traverseArray data.toList = some (ms, n)) :
+    match specFloats data.toList ms with
+    | some xs =>
+      (runA Gen.HandleArrayValues.machine data floatH hv stack #[] []).1.kind = .ok ∧
+      (runA Gen.HandleArrayValues.machine data floatH hv stack #[] []).1.p = (n : Int) ∧
+      (runA Gen.HandleArrayValues.machine data floatH hv stack #[] []).1.hs = xs
+    | none => ∃ id, (runA Gen.HandleArrayValues.machine data floatH hv stack #[] []).1.kind = .herr id := by
+  have hag := C07.handleArrayValues_spec floatH floatH_WB data hsm hv stack []
+  rw [ht] at hag
+  simp only [C07.Agrees] at hag
+  have hrep := replay_floatH data.toList ms [] 0
+  revert hrep
+  cases specFloats data.toList ms with
+  | some xs =>
+    intro hrep
+    simp only [] at hrep ⊢
+    rw [hrep] at hag
+    simp only [List.nil_append] at hag
+    exact ⟨hag.1, hag.2.1, hag.2.2.1⟩
+  | none =>
+    intro hrep
+    simp only [] at hrep ⊢
+    obtain ⟨id, hid⟩ := hrep
+    rw [hid] at hag
+    exact ⟨id, hag.1⟩
+
+/-- non-vacuity: the reference traversal of `[1, 2.5e1 ,-0]` finds three members, and the specification gives 1, 25, -0 -/
+example : (traverseArray "[1, 2.5e1 ,-0]".toUTF8.data.toList).map (fun r => (r.1.length, r.2)) = some (3, 14) := by decide +kernel
 
 end RJson.C08
